@@ -289,6 +289,9 @@ Definition is_some_b {A} (o : option A) : bool := match o with Some _ => true | 
 Section Ps.
 Variable cfg : sdeviations.
 Variable strict : bool.
+(* [skip3]: a strict run that does not stop at event 3 (var_names differ from the free variables - mostly the harmless extra
+   capture) but goes on as the code does; used only to find the first *other* event of a run (attribution) *)
+Variable skip3 : bool.
 
 (* an entry of a symbol table is an EvalLocalVar iff the function has an inner def (then all its locals get cells) or
    the entry is a captured cell *)
@@ -380,7 +383,7 @@ Definition ps_capture_one (stack : list frame) (fr : option frame) (d : fdef) (s
   else
     let capturable := negb (smem x (d_globals d)) && negb (is_local_ps d x) in
     let here := match fr with Some f => assoc x (fr_own f ++ fr_cap f) | None => None end in
-    if capturable && is_some_b here && negb (Bool.eqb (smem x (vn_ps d)) (smem x (uses_py d))) then
+    if negb skip3 && capturable && is_some_b here && negb (Bool.eqb (smem x (vn_ps d)) (smem x (uses_py d))) then
       CrAnom 3                                 (* var_names and the free variables differ on a visible name (D38b) *)
     else if capturable && smem x (vn_ps d) && negb (is_some_b here) && is_some_b (find_cell stack x) then
       CrAnom 1                                 (* a caller's variable would be captured: dynamic scoping *)
@@ -623,7 +626,7 @@ Definition empty_state : state := {| st_store := []; st_globals := []; st_trace 
 Definition run_module (fuel : nat) (prog : list stmt) : outcome (option val) := ex fuel [] None prog empty_state.
 End Run.
 
-Definition ps_run (cfg : sdeviations) (strict : bool) := run_module (ps_policy cfg strict).
+Definition ps_run (cfg : sdeviations) (strict skip3 : bool) := run_module (ps_policy cfg strict skip3).
 Definition py_run := run_module py_policy.
 
 (* ---------- what is observed of a run ---------- *)
